@@ -120,6 +120,7 @@ FIXED = [
     ("C20", "612acbc", "`var r=/a*/g; r.exec('b'); r.lastIndex` was 1 (ECMAScript: 0, the end of the empty match): exec/test stepped over an empty match themselves"),
     ("C20", "b4f512e", "`'abc'.split(/x*/)` was ['', 'a', 'b', 'c', ''], `'abc'.split(/b*/)` ['', 'a', '', 'c', ''], `''.split(/x*/)` two pieces: empty matches at the previous end and at the end of the string taken for separators"),
     ("C17", "e8d1609", "`a.set(a.subarray(0, 3), 1)` on [1,2,3,4] over one buffer gave 1,1,1,1 (ECMAScript: 1,1,2,3): source elements overwritten before they were read"),
+    ("C06", "7f919c3", "`var a=7; a **= 2` was a SyntaxError: the exponentiation operator had no compound-assignment token"),
 ]
 
 
